@@ -284,7 +284,7 @@ func TestEnumHistories(t *testing.T) {
 }
 
 func TestRapidLongHistories(t *testing.T) {
-	ev.Rule(chkRapid, "rapid: tree-generated histories of 3-30 operations with fresh keys of all 5 types, both hash algorithms, forks, all delta classes, signed windows, all forgery classes, cycles, replays, duplicate creates, unpublished operations, coordinates with numbers independent of times, and (one in three) two protocol versions with different maximum operation time deltas, every operation stamped with one of them; same oracle; non-trivial as above")
+	ev.Rule(chkRapid, "rapid: tree-generated histories of 3-30 operations with fresh keys of all 5 types, both hash algorithms, forks, all delta classes, signed windows, all forgery classes, cycles, replays, duplicate creates, unpublished operations, coordinates with numbers independent of times, and (one in three) two protocol versions with different maximum operation time deltas, every operation stamped with one of them, and (one in four) a node whose server-clock validator considers every signed window expired; same oracle; non-trivial as above")
 	ev.Rapid(t, chkRapid, 500, 4000, func(t *rapid.T) {
 		h := gen.Hist(t, gen.HistOpts{MinOps: 3, MaxOps: 30, Forks: true, BadDeltas: true, Windows: true, Forges: true, DupCreates: true, Cycles: true, Replays: true, Pool: "c03"})
 		anch := gen.Anchor(t, h, gen.AnchorOpts{Unpublished: true})
@@ -294,6 +294,8 @@ func TestRapidLongHistories(t *testing.T) {
 		}
 		c := hist.NewCase(h.Suffix, h.Code, 0, anch)
 		c.Versions = versions
+		// resolution of anchored operations does not depend on the node's clock
+		c.ExpiredClock = rapid.IntRange(0, 3).Draw(t, "expiredClock") == 0
 		kind, sig, msg, _ := evalCase(c)
 		b := branches(c)
 		if len(versions) > 0 {
